@@ -545,7 +545,9 @@ class Project(MessageHandler):
 
         Also compute start/end dates for container tasks based on children.
         """
-        for task in self.tasks:
+        # Children are created after their parents, so walking the list backwards
+        # rolls a whole subtree up in a single pass.
+        for task in reversed(list(self.tasks)):
             if task.leaf():
                 continue  # Skip leaf tasks
 
